@@ -321,19 +321,42 @@ theorem finish_ok {KI : KktSolver α → Prop} {d : ProblemData α} {specs : Lis
   exact ⟨hx.trans hsol.x, fun hp => hs.trans (hsol.none_s hp), fun hp => hz.trans (hsol.none_z hp),
     fun p hp => hs.trans (hsol.some_s p hp), fun p hp => hz.trans (hsol.some_z p hp)⟩
 
+/-! ### the norm caches: the invariant does not look at them -/
+
+theorem Shapes.withNorms {KI : KktSolver α → Prop} {S : SolverSt α} (h : Shapes KI S) (a b : Option α) :
+    Shapes KI { S with data := { S.data with normq := a, normb := b } } :=
+  ⟨h.data.withNorms a b, h.vars, h.resid, h.stepLhs, h.stepRhs, h.prevVars, h.cones, h.numel, h.ksized,
+    h.kkt⟩
+
+/-- the stage bundle depends on the data only through `n`, `m` -/
+theorem Stages.withNorms {E : String → Prop} {KIw KIs : KktSolver α → Prop} {d : ProblemData α}
+    {specs : List Kkt.ConeSpec} {st : Settings α} (G : Stages E KIw KIs d specs st) (a b : Option α) :
+    Stages E KIw KIs { d with normq := a, normb := b } specs st :=
+  ⟨G.cone, G.mid, G.kkt⟩
+
 /-- [S] **every `solve()` returns, or panics at a numerical-domain site** (relative to the stage
 bundle `G`): on a solver object satisfying the invariant, `Solver.solve` returns `.ok` and the
-returned solver object satisfies the invariant again (so it can be solved again), or it panics at
-a site allowed by `E`; it never returns `.err`, and never panics anywhere else (index / slice out
+returned solver object satisfies the invariant again (so it can be solved again) — anchored at ITS
+data, which is the data at entry with the two norm caches filled (`Solver.fillNorms`) —, or it panics
+at a site allowed by `E`; it never returns `.err`, and never panics anywhere else (index / slice out
 of range, length assertions, `unwrap`, the model's pass budget). -/
 theorem solve_okOr {E : String → Prop} {KIw KIs : KktSolver α → Prop} {d : ProblemData α}
     {specs : List Kkt.ConeSpec} {st : Settings α} (G : Stages E KIw KIs d specs st) {S : Solver α}
     (h : SolverInv KIw d specs S) :
-    OkOr E (S.solve st) (fun r => SolverInv KIw d specs r.S) := by
+    OkOr E (S.solve st) (fun r => (∃ nq nb, r.S.st.data = { d with normq := some nq, normb := some nb })
+      ∧ Solver.fillNorms d = .ok r.S.st.data ∧ SolverInv KIw r.S.st.data specs r.S) := by
   unfold Solver.solve
   refine (runSolve_okOr G h.st).bind fun L hI => ?_
   refine (OkOr.of_okAnd (finish_ok st hI h.solution)).bind fun r hr => ?_
-  exact .pure ⟨hr.1, hr.2⟩
+  obtain ⟨nq, nb, hfill⟩ := Solver.fillNorms_ok hr.1.shapes.data
+  have hd : r.1.data = d := hr.1.data
+  rw [bind_ok_of hfill]
+  refine .pure ⟨⟨nq, nb, ?_⟩, ?_, ⟨hr.1.shapes.withNorms _ _, rfl, hr.1.specs⟩, ?_⟩
+  · show ({ r.1.data with normq := some nq, normb := some nb } : ProblemData α) = _
+    rw [hd]
+  · rw [← hd]; exact hfill
+  · show SolutionSized { r.1.data with normq := some nq, normb := some nb } r.2
+    rw [hd]; exact hr.2.withNorms _ _
 
 /-- the literal reading with `E := NumSite`: a panic of `solve()` is one of the two
 numerical-domain sites -/
